@@ -41,6 +41,10 @@ Slice(elem, req, def, tests, pts) ==
 Ptr(elem, notnil) ==
   [k |-> "ptr", ty |-> "none", req |-> notnil, def |-> None, catch |-> None,
    tests |-> <<>>, pts |-> <<>>, kids |-> <<Kid("", NoTags, elem)>>]
+\* Preprocess(fn, schema): fn takes the input STRING; kind "ok" hands it on unchanged, kind "err" fails
+Pre(kind, elem) ==
+  [k |-> "pre", ty |-> kind, req |-> FALSE, def |-> None, catch |-> None,
+   tests |-> <<>>, pts |-> <<>>, kids |-> <<Kid("", NoTags, elem)>>]
 Custom(test) ==
   [k |-> "custom", ty |-> "int", req |-> FALSE, def |-> None, catch |-> None,
    tests |-> <<test>>, pts |-> <<>>, kids |-> <<>>]
@@ -74,6 +78,7 @@ DType(node) ==
     [] node.k = "slice"  -> "slice"
     [] node.k = "custom" -> "custom"
     [] node.k = "ptr"    -> DType(Elem(node))
+    [] node.k = "pre"    -> DType(Elem(node))
     [] OTHER             -> "none"
 
 \* ---- paths ---------------------------------------------------------------
@@ -103,6 +108,12 @@ Lookup(in, key) ==
 Coercible(node, in) ==
   \/ in.t = "val"
   \/ node.ty = "str" /\ in.t \in {"bad"}       \* everything has a %v string; harness never generates it
+
+\* the primitive type a bare leaf under this node is read as
+RECURSIVE LeafTy(_)
+LeafTy(node) == IF node.k = "prim" THEN node.ty ELSE IF node.kids = <<>> THEN "int" ELSE LeafTy(node.kids[1].node)
+\* is the input a Go string (what a Preprocess function over strings accepts)?
+StrInput(in, node) == in.t \in {"blank", "empty", "bad"} \/ (in.t = "val" /\ (in.rep = "str" \/ LeafTy(node) = "str"))
 
 \* ---- tests ---------------------------------------------------------------
 \* verdict of a test on an abstract value (a leaf value or a slice length)
@@ -137,7 +148,8 @@ EmptyF == [x \in {} |-> 0]
 
 RECURSIVE ZeroDest(_, _)
 ZeroDest(node, p) ==
-  CASE node.k \in {"prim", "custom"} -> (p :> 0)
+  CASE node.k = "pre" -> ZeroDest(node.kids[1].node, p)
+    [] node.k \in {"prim", "custom"} -> (p :> 0)
     [] node.k = "slice" -> (p :> -1)
     [] node.k = "ptr"   -> (p :> 0)
     [] node.k = "struct" ->
@@ -149,7 +161,8 @@ ZeroDest(node, p) ==
 
 RECURSIVE InitDest(_, _)
 InitDest(node, p) ==
-  CASE node.k = "prim"   -> (p :> InitVal(node.ty))
+  CASE node.k = "pre" -> InitDest(node.kids[1].node, p)
+    [] node.k = "prim"   -> (p :> InitVal(node.ty))
     [] node.k = "custom" -> (p :> Sentinel)
     [] node.k = "slice"  -> (p :> -1)
     [] node.k = "ptr"    -> (p :> 0)
@@ -164,7 +177,8 @@ InitDest(node, p) ==
 \* reuse them, so that absent optionals and unnamed fields below stay untouched (C03)
 RECURSIVE InitDestPre(_, _)
 InitDestPre(node, p) ==
-  CASE node.k = "prim"   -> (p :> InitVal(node.ty))
+  CASE node.k = "pre" -> InitDestPre(node.kids[1].node, p)
+    [] node.k = "prim"   -> (p :> InitVal(node.ty))
     [] node.k = "custom" -> (p :> Sentinel)
     [] node.k = "slice"  -> (p :> -1)
     [] node.k = "ptr"    -> (p :> 1) @@ InitDestPre(Elem(node), Append(p, "*"))
@@ -191,7 +205,8 @@ MakeSlice(d, node, p, n) ==
 \* the value tree a Validate call is given, flattened (also used for slice defaults)
 RECURSIVE Flatten(_, _, _)
 Flatten(node, in, p) ==
-  CASE node.k \in {"prim", "custom"} -> (p :> (IF in.t = "val" THEN in.v ELSE 0))
+  CASE node.k = "pre" -> Flatten(node.kids[1].node, in, p)
+    [] node.k \in {"prim", "custom"} -> (p :> (IF in.t = "val" THEN in.v ELSE 0))
     [] node.k = "slice" ->
          IF in.t # "list" THEN (p :> -1)
          ELSE LET n == Len(in.items)
